@@ -178,8 +178,9 @@ def gen_events(args):
     return out
 
 
-def record_repo_tests(what, tests="tests/"):
-    """run the repository's own tests under harness/pytest_recorder.py; returns (events, stats)"""
+def record_repo_tests(what, tests=("--doctest-modules", "--doctest-continue-on-failure", "dimarray", "tests")):
+    """run the repository's own tests and the examples of its docstrings (as drivers: their own verdicts are ignored) under
+    harness/pytest_recorder.py; returns (events, stats)"""
     import subprocess
     import sys
     repo = os.environ.get("VERIF_REPO", "/repo")
@@ -188,7 +189,7 @@ def record_repo_tests(what, tests="tests/"):
         if os.path.exists(f):
             os.remove(f)
     env = dict(os.environ, DIMARRAY_VERIF="1", VERIF_TRACE_OUT=out, VERIF_TRACE_WHAT=what, PYTHONPATH=T.VERIF + os.pathsep + repo)
-    subprocess.run([sys.executable, "-m", "pytest", "-q", "-p", "no:cacheprovider", "-p", "harness.pytest_recorder", "--continue-on-collection-errors", tests],
+    subprocess.run([sys.executable, "-m", "pytest", "-q", "-p", "no:cacheprovider", "-p", "harness.pytest_recorder", "--continue-on-collection-errors"] + list(tests),
                    cwd=repo, env=env, stdout=subprocess.DEVNULL, stderr=subprocess.DEVNULL, timeout=900)
     if not os.path.exists(out):
         raise T.TLCError("the recorder produced no trace file")
@@ -199,7 +200,7 @@ def record_repo_tests(what, tests="tests/"):
     return events, stats
 
 
-def validate(prop, tier, seed, ctx, families, n_quick=480, n_thorough=12000, repo_tests=None):
+def validate(prop, tier, seed, ctx, families, n_quick=480, n_thorough=12000, repo_tests=None, min_recorded=20):
     """generate events, validate them with TLC, turn rejections into violations of `prop`"""
     n = n_quick if tier == "quick" else n_thorough
     chunks = [(1000 * (seed + 1) + i, n // 16 + 1, families) for i in range(16)]
@@ -208,7 +209,7 @@ def validate(prop, tier, seed, ctx, families, n_quick=480, n_thorough=12000, rep
     recorded_stats = None
     if repo_tests:
         rec, recorded_stats = record_repo_tests(repo_tests)
-        if len(rec) < 20:
+        if len(rec) < min_recorded:
             raise T.TLCError("only %d calls recorded from the repository's tests" % len(rec))
         for e in rec:
             e["id"] = 900000000 + e["id"]
